@@ -52,7 +52,9 @@ LEVEL_TEXT = (
     "session; no stage is carved out for a defect.  The hypothesis at_rest states the asyncio rule R1 (the abor handler "
     "meets the worker only suspended, not started or finished) and excludes a transfer that has already failed on its "
     "own and whose 451 / session end is still to be reported by the dispatcher.  Further: C14_abor_in_body (exactly "
-    "426,226 anywhere in the body), C14_abor_idle (single 226), C14_moved_is_prefix.  The theorem rests on the closed "
+    "426,226 anywhere in the body), C14_abor_idle (single 226), C14_moved_is_prefix, C14_abor_stops_all_transfers (ANY "
+    "number of simultaneous transfers: all stopped, streams and files closed, prefixes kept; the reply sequence for n >= 2 "
+    "is validated against the real server, not proved).  The theorem rests on the closed "
     "obligation C14_facts_ok (repaired14 genF), false on each former defective shape (F2, F3, F4).  PARTIAL: the "
     "theorems are about the model; that the real asyncio schedule is one of the model's is validated by the enumerated "
     "placements, not proved."
@@ -114,9 +116,9 @@ def abor_case(verb, place, size=None, follow="pwd", pool=True, rest=None):
     if kind not in ("ticks", "pipe", "pipe_nodata"):
         steps.append(["cmd", "ABOR"])
     steps.append(["snap", "after"])
-    if kind == "noread":
-        steps.append(["dread"])
-    if kind in ("sent", "gate", "late_gate") and verb in ("STOR", "APPE"):
+    if kind in ("noread", "stalled", "two"):
+        steps.append(["dread", "all"])
+    if (kind in ("sent", "gate", "late_gate") and verb in ("STOR", "APPE")) or (kind == "two" and place[2] == "stor"):
         steps.append(["dsend", 3])  # bytes sent after the abort must not be stored
     steps.append(["release", None])
     if kind == "handler_gate" and verb in ("STOR", "APPE"):
@@ -128,6 +130,7 @@ def abor_case(verb, place, size=None, follow="pwd", pool=True, rest=None):
         "verb": verb, "place": list(place), "follow": follow, "rest": rest,
         "steps": steps, "gates": gates, "pool": pool, "files": files, "payload": payload, "block": block,
         "inspect": ["up", "old", "up2", "old2", "f"],
+        **({"water": [8, 16]} if kind == "stalled" or "retr_stalled" in place[1:] else {}),
     }
 
 
@@ -147,6 +150,8 @@ _REF = {}
 
 def oracle(case, r):
     """C14 on the observations of one run; returns [(aspect, message)]"""
+    if case["place"][0] == "two":
+        return oracle_two(case, r)
     bad = []
     verb, place = case.get("verb"), case["place"]
     log = r.log
@@ -185,12 +190,21 @@ def oracle(case, r):
         # either the abort interrupted it (426, 226) or it completed first (done, 226)
         want = [[426, 226], [done_code, 226]]
     ctrl_up = not any(rec["ctrl_eof"] for rec in log)
+    if window in want and not case["gates"] and place[0] != "handler_gate":
+        # no back-end call is being held: the answer must be complete before the peer does anything more
+        # (in particular before a stalled data peer starts reading again)
+        i_aft = next(i for i, rec in enumerate(log) if rec["step"] == ["snap", "after"])
+        early = [c for rec in log[i_abor : i_aft + 1] for c in rec["codes"]]
+        if log[i_abor]["step"][0] in ("ticksend", "pipe") and 150 in early:
+            early.remove(150)
+        if early != window:
+            bad.append(("answered-late", f"ABOR was answered {early} while the peer stayed passive; the rest of {window} came only after the peer read its data connection / sent more"))
     if window not in want:
         bad.append(("answered", f"replies after ABOR {window}, expected one of {want}" + ("" if ctrl_up else "; the control connection was closed")))
     if not ctrl_up:
         bad.append(("session", "the server closed the control connection"))
     # data connection of the transfer
-    nd = 0 if place[0] in ("idle", "nodata", "pipe_nodata") else 1
+    nd = 0 if place[0] in ("idle", "nodata", "pipe_nodata") else 1  # "stalled": like any placement with a data connection
     if place[0] == "handler_gate":
         started, completed_before = True, True  # for the checks below: the transfer ran undisturbed after the ABOR
     if place[0] == "idle" and place[1] == "pasv_dconn":
@@ -262,6 +276,44 @@ def oracle(case, r):
     return bad
 
 
+def oracle_two(case, r):
+    """C14 with TWO transfers alive in the session when ABOR arrives: both are interrupted (426, 226 each), both data
+    connections closed, nothing more stored, no late completion reply, the session stays usable"""
+    bad = []
+    log = r.log
+    i_abor = next(i for i, rec in enumerate(log) if rec["step"][:2] == ["cmd", "ABOR"])
+    i_aft = next(i for i, rec in enumerate(log) if rec["step"] == ["snap", "after"])
+    n_follow = len(FOLLOWUPS[case["follow"]])
+    end_window = len(log) - n_follow - 1
+    window = [c for rec in log[i_abor:end_window] for c in rec["codes"]]
+    early = [c for rec in log[i_abor : i_aft + 1] for c in rec["codes"]]
+    n150 = sum(rec["codes"].count(150) for rec in log[:i_abor])
+    if n150 != 2:
+        return [("harness", f"expected two transfers in progress, saw {n150} x 150")]
+    ctrl_up = not any(rec["ctrl_eof"] for rec in log)
+    if window != [426, 226, 426, 226]:
+        bad.append(("answered", f"two transfers in progress, replies after ABOR {window}, expected 426,226 for each of them"))
+    elif not case["gates"] and early != window:
+        bad.append(("answered-late", f"ABOR was answered {early} while the peers stayed passive; the rest came only later"))
+    if not ctrl_up:
+        bad.append(("session", "the server closed the control connection"))
+    for i, d in enumerate(r.data[:2]):
+        if not (d.eof and d.server_t.closed):
+            bad.append(("data-eof", f"data connection of transfer {i + 1} still open after ABOR (peer saw EOF: {d.eof}, server side closed: {d.server_t.closed})"))
+    a, st_ = r.snaps.get("after"), r.snaps.get("settled")
+    if a and st_ and st_["done"].get("write", 0) != a["done"].get("write", 0):
+        bad.append(("stops", "an upload went on storing after the ABOR was answered"))
+    fol = [rec["codes"] for rec in log[len(log) - n_follow - 1 : -1]]
+    if ctrl_up and fol != FOLLOW_CODES[case["follow"]]:
+        bad.append(("follow-up", f"follow-up {case['follow']}: replies {fol}, expected {FOLLOW_CODES[case['follow']]} (a late reply of a transfer that was not stopped?)"))
+    if ctrl_up:
+        led = r.final
+        extra = [t for t in led["tasks"] if t not in ("Server.dispatcher", "Server.parse_command", "Server.response_writer")]
+        if led["data"] or led["files"] or extra:
+            bad.append(("leftover", f"after the abort and the follow-up the session still holds data sockets={led['data']} files={led['files']} tasks={extra}"))
+    return bad
+
+
 def _overlay_ok(base, off, sent, got):
     """REST off; STOR/APPE: content = base overwritten from `off` by a prefix of what was sent"""
     for m in range(len(sent) + 1):
@@ -281,6 +333,8 @@ def key_for(case, r, aspects):
     if obs and obs["abs"] and obs["abs"]["workers"]:
         stage = obs["abs"]["workers"][0]["stage"]
     a = set(aspects)
+    if case["place"][0] == "two":
+        return "c14-two-transfers-" + "+".join(sorted(a))
     ctrl_up = not any(rec["ctrl_eof"] for rec in r.log)
     if stage is not None and stage[0] == 1 and stage[1] == 0 and a <= {"answered", "session", "follow-up"} and not ctrl_up:
         return KEY_F2
@@ -292,6 +346,12 @@ def key_for(case, r, aspects):
 
 
 # ------------------------------------------------------------------ correspondence
+# (first transfer, second transfer): how each is kept alive - by its own peer (upload waiting for bytes, download not
+# being read) or by a suspended back-end call (at most one of the two, gates count calls of the whole session)
+TWO_PAIRS = [("stor", "stor"), ("stor", "retr_stalled"), ("stor", "retr_gate"), ("retr_stalled", "stor"),
+             ("retr_gate", "stor"), ("retr_gate", "retr_stalled"), ("list_gate", "stor"), ("list_gate", "retr_stalled")]
+
+
 def gen_cases(rng, thorough):
     cases = []
     follows = list(FOLLOWUPS)
@@ -334,12 +394,20 @@ def gen_cases(rng, thorough):
         cases.append(abor_case(verb, ("handler_gate", "is_dir" if verb in ("STOR", "APPE") else "exists", 1), follow=nf()))
         if verb == "RETR":
             cases.append(abor_case(verb, ("noread",), follow=nf()))
+        if verb in ("RETR", "LIST", "MLSD"):
+            # the data peer is connected, does not read, and the transport's write buffer is full
+            for f in (follows if thorough else [nf(), nf()]):
+                cases.append(abor_case(verb, ("stalled",), follow=f))
         if verb in ("LIST", "MLSD"):
             for op, lo, top in (("list", 1, 4), ("stat", 1, 3)) + ((("exists", 2, 4),) if verb == "LIST" else ()):
                 for k in range(lo, top + 1):
                     cases.append(abor_case(verb, ("gate", op, k), follow=nf()))
                     if thorough:
                         cases.append(abor_case(verb, ("late_gate", op, k), follow=nf()))
+    # two transfers alive in one session (second PASV + data connection + transfer command while the first still runs)
+    for first, second in TWO_PAIRS:
+        for f in (follows if thorough else [nf()]):
+            cases.append(abor_case(None, ("two", first, second), follow=f))
     for where in ("login", "pasv", "pasv_dconn"):
         fs = {"login": ["pwd", "abor"], "pasv": follows if thorough else ["pwd", "retr", "abor", "stor"],
               "pasv_dconn": ["pwd", "abor", "pasv_retr"]}[where]
@@ -358,7 +426,10 @@ def model_for(case, r, facts):
         return None
     wabs = xfer.resolve_workers(obs, facts, case["block"], ever_data=bool(r.data))
     # finished workers that the dispatcher has not reaped are part of the state; live ones too
-    evs = xfer.model_trace(obs["abs"], wabs)
+    try:
+        evs = xfer.model_trace(obs["abs"], wabs)
+    except ValueError:
+        return None  # several transfers in stages the canonical trace builder does not cover: oracle only
     return (3, [case["pool"], evs]), wabs, obs
 
 
@@ -367,7 +438,7 @@ def run_cases(ctx, cases, facts, stream):
     for case in cases:
         r = xfer.run_case(case)
         ctx.traces_impl += 1
-        q = model_for(case, r, facts)
+        q = model_for(case, r, facts) if facts is not None else None
         runs.append((case, r, q))
         if q is not None:
             queries.append(q[0])
@@ -545,17 +616,22 @@ def correspondence(ctx, thorough=None):
         "cases = verb (RETR, STOR, APPE, LIST, MLSD) x abort position (after 150 with no data connection; pipelined with the "
         "command; n = 0..9 event-loop iterations after the command; back-end open / seek / every k-th read or write / every "
         "directory step / stat / close suspended; after j bytes of an upload for j around block multiples; against a peer "
-        "that does not read; after the completion reply; no transfer at all) x file size around block multiples x follow-up "
+        "that does not read, also with the transport's write buffer full (lowered flow-control marks; close() lingers until the "
+        "buffer is flushed, as an asyncio transport does); after the completion reply; no transfer at all; TWO transfers alive "
+        "in the session, each kept alive by its peer or by a suspended back-end call) x file size around block multiples x follow-up "
         "(PWD, RETR, STOR, APPE, LIST, MLSD, PASV+RETR, REST+RETR, ABOR), with and without a data-port pool.  Each case runs "
         "the real server once; it is non-trivial when its (verb, position, size, follow-up) tuple is new."
     )
-    facts = xfer.facts_of(ctx)
-    obligations(ctx)
+    if ctx.exe is not None:
+        facts = xfer.facts_of(ctx)
+        obligations(ctx)
+    else:
+        facts = None  # the model did not build (reported as a broken obligation): the oracle still judges every case
     cases = gen_cases(ctx.rng, thorough)
     ctx.count("cases", len(cases))
     xs = run_cases(ctx, cases, facts, "abor")
     client_stream(ctx)
-    ok, out = core.vm_crosscheck(EXTRACT, xs[:30])
+    ok, out = core.vm_crosscheck(EXTRACT, xs[:30]) if ctx.exe is not None else (True, "no model")
     ctx.extra["vm_compute_crosscheck"] = {"cases": len(xs[:30]), "agree": ok}
     if not ok:
         ctx.obligation_broken("extraction-crosscheck", out)
@@ -568,7 +644,7 @@ def correspondence(ctx, thorough=None):
 
 
 def search(ctx):
-    if ctx.violations or ctx.tier == "thorough" or ctx.exe is None:
+    if ctx.violations or ctx.tier == "thorough":
         return
     try:
         correspondence(ctx, thorough=True)
